@@ -256,6 +256,9 @@ def _dot_reference(d, gtype):
         return graphref.Gray("a loop")
     rank = {v: i for i, v in enumerate(sorted(nodes), start=1)}
     extra = len(set(raw))
+    if extra and gtype == "dag":
+        # which of '02', '12' and '2' is the lower vertex?
+        return graphref.Gray("the place of '01' in the order")
     if d["directed"]:
         ref = RefDirected(len(nodes) + extra)
         for a, b in edges:
@@ -268,8 +271,6 @@ def _dot_reference(d, gtype):
         ref = RefSimple(len(nodes) + extra)
         for a, b in edges:
             ref.add(rank[a], rank[b])
-    if extra and gtype == "dag":
-        return graphref.Gray("the place of '01' in the order")
     v = graphref.Valid(ref)
     # where '01' goes in the numbering is the reader's business: only the
     # numbers of vertices and edges are compared
@@ -291,8 +292,77 @@ def _nest_text(nest, fmt):
                                       if nest["closed"] else "")
 
 
+def _gen_gml(rng, gtype):
+    """A well-formed gml text whose node lines come in any order and whose
+    identifiers have gaps: vertices are numbered 1..n in the order of their
+    identifiers (for a bipartite graph: within each side)."""
+    ids = rng.sample([1, 2, 3, 4, 5, 7, 10, 11, 12, 20, 100],
+                     rng.randint(1, 6))
+    side = {v: rng.randint(0, 1) for v in ids}
+    pairs = [(a, b) for a in ids for b in ids if a < b]
+    if gtype == "bipartite":
+        pairs = [(a, b) if side[a] == 0 else (b, a) for a, b in pairs
+                 if side[a] != side[b]]
+    edges = [e for e in pairs if rng.random() < 0.5]
+    if gtype == "digraph":
+        edges = [e if rng.random() < 0.6 else (e[1], e[0]) for e in edges]
+    if gtype != "bipartite" and gtype != "dag" and rng.random() < 0.3:
+        rng.shuffle(edges)
+    order = list(ids)
+    rng.shuffle(order)
+    if rng.random() < 0.3:
+        edges = [(b, a) if gtype in ("simple", "bipartite") and
+                 rng.random() < 0.5 else (a, b) for a, b in edges]
+    return {"ids": order, "side": {str(v): side[v] for v in ids},
+            "edges": [list(e) for e in edges]}
+
+
+def _gml_text(g, gtype):
+    lines = ["graph ["]
+    if gtype in ("digraph", "dag"):
+        lines.append("  directed 1")
+    for v in g["ids"]:
+        extra = " bipartite %d" % g["side"][str(v)] if gtype == "bipartite" \
+            else ""
+        lines.append('  node [ id %d label "%d"%s ]' % (v, v, extra))
+    for a, b in g["edges"]:
+        lines.append("  edge [ source %d target %d ]" % (a, b))
+    lines.append("]")
+    return "\n".join(lines) + "\n"
+
+
+def _gml_reference(g, gtype):
+    ids = sorted(g["ids"])
+    if gtype == "bipartite":
+        left = [v for v in ids if g["side"][str(v)] == 0]
+        right = [v for v in ids if g["side"][str(v)] == 1]
+        lrank = {v: i for i, v in enumerate(left, start=1)}
+        rrank = {v: i for i, v in enumerate(right, start=1)}
+        ref = RefBipartite(len(left), len(right))
+        for a, b in g["edges"]:
+            if a in rrank:
+                a, b = b, a
+            ref.add(lrank[a], rrank[b])
+        return graphref.Valid(ref)
+    rank = {v: i for i, v in enumerate(ids, start=1)}
+    if gtype == "simple":
+        ref = RefSimple(len(ids))
+    else:
+        ref = RefDirected(len(ids))
+    for a, b in g["edges"]:
+        ref.add(rank[a], rank[b])
+    if gtype == "dag" and not ref.is_dag():
+        return graphref.Invalid("not topologically ordered")
+    return graphref.Valid(ref)
+
+
 def generate(rng, config):
     gtype = rng.choice(["simple", "digraph", "dag", "bipartite"])
+    if config == "text" and rng.random() < 0.08:
+        g = _gen_gml(rng, gtype)
+        return {"type": gtype, "format": "gml", "gml": g,
+                "text": _gml_text(g, gtype), "load": _gen_load(rng, "gml"),
+                "faults": []}
     if config == "text" and rng.random() < 0.15:
         gtype = rng.choice(["simple", "digraph", "dag"])
         d = _gen_dot(rng, gtype != "simple")
@@ -663,6 +733,8 @@ def _k2p(data, case, fs, ctx, ref, where):
 def _reference(data, fmt, gtype, case=None):
     if fmt == "dot" and case is not None and "dot" in case:
         return _dot_reference(case["dot"], gtype)
+    if fmt == "gml" and case is not None and "gml" in case:
+        return _gml_reference(case["gml"], gtype)
     if case is not None and "nest" in case:
         if not case["nest"]["closed"]:
             return graphref.Invalid("truncated")
